@@ -219,12 +219,16 @@ def tz_offset_seconds(tz: str) -> int:
 
 
 TZS = ["UTC", "<+09>-9", "<-08>8", "<+0545>-5:45"]
-DETAILS = ["hash", "repr", "hash,repr,context", "all"]
+# every non-empty subset of the documented flags, `all`, and spellings the driver documents as equivalent (case, blanks,
+# unknown flags ignored; no flag -> hash)
+DETAILS = ["hash", "repr", "context", "hash,repr", "hash,context", "repr,context", "hash,repr,context", "all",
+           " Hash , REPR ", "context,verbose", "timings"]
 
 
 # ---------------------------------------------------------------- in-process CLI
 def write_cli_config(sc: dict, path: str = "cfg.yaml", *, trace: dict | None = None, run_space: dict | None = None,
-                     executor: bool = True, extra: dict | None = None, dump_kwargs: dict | None = None) -> str:
+                     executor: bool = True, extra: dict | None = None, dump_kwargs: dict | None = None,
+                     run_space_nested: bool = False) -> str:
     """Write a YAML configuration for `semantiva run/inspect` into the sandbox (cwd)."""
     import yaml
     cfg: dict[str, Any] = {"extensions": ["svsim.lib"], "pipeline": {"nodes": copy.deepcopy(sc["nodes"])}}
@@ -233,7 +237,10 @@ def write_cli_config(sc: dict, path: str = "cfg.yaml", *, trace: dict | None = N
     if trace is not None:
         cfg["trace"] = trace
     if run_space is not None:
-        cfg["run_space"] = copy.deepcopy(run_space)
+        if run_space_nested:
+            cfg["pipeline"]["run_space"] = copy.deepcopy(run_space)      # the other documented placement: next to `nodes`
+        else:
+            cfg["run_space"] = copy.deepcopy(run_space)
     if extra:
         cfg.update(extra)
     text = yaml.safe_dump(cfg, sort_keys=False, **(dump_kwargs or {}))
